@@ -70,6 +70,23 @@ impl Events {
     }
 }
 
+/// current per-thread counter values (for nested measurements inside an armed region)
+pub fn snapshot_armed() -> Events {
+    snapshot()
+}
+
+impl Events {
+    pub fn since(self, before: Events) -> Events {
+        Events {
+            allocs: self.allocs - before.allocs,
+            reallocs: self.reallocs - before.reallocs,
+            frees: self.frees - before.frees,
+            bytes_in: self.bytes_in - before.bytes_in,
+            bytes_out: self.bytes_out - before.bytes_out,
+        }
+    }
+}
+
 fn snapshot() -> Events {
     Events {
         allocs: ALLOCS.with(|c| c.get()),
